@@ -17,7 +17,7 @@ RULE = ("a case is a typed list or dict field (item/key/value families with conc
         "contents, order, length, return value and result types are compared after every step; copies, + and += "
         "results must stay typed (they must reject an invalid item); non-trivial = >= 2 operations compared with "
         ">= 1 mutation; distinct = distinct (field, history)")
-REQUIRED = ("dict_equality_with_a_twin_configuration", "list_equality_with_a_twin_configuration", "dict_equality_queries", "list_equality_queries", "config_item_lists", "ops_compared", "list_ops_compared", "dict_ops_compared", "typed_result_probes", "op:setslice", "op:ior",
+REQUIRED = ("members_equal_up_to_an_inner_default_changed_in_place", "dict_equality_with_a_twin_configuration", "list_equality_with_a_twin_configuration", "dict_equality_queries", "list_equality_queries", "config_item_lists", "ops_compared", "list_ops_compared", "dict_ops_compared", "typed_result_probes", "op:setslice", "op:ior",
             "op:setdefault", "op:update", "op:extend", "op:iadd", "iter:iter", "iter:proxy_other", "iter:mapping",
             "update:proxy_same+kwargs", "update:proxy_other+kwargs", "update:pairs+kwargs", "iter:gen_dedup", "iter:multimap",
             "sorts_with_key_and_reverse", "members_removed_by_object", "equal_members_added")
@@ -68,7 +68,7 @@ def generate(rng, ctx):
     nops = rng.randrange(1, maxops + 1)
     bad = rng.choice([0.0, 0.0, 0.1, 0.25])
     if rng.random() < 0.5:
-        cfg_items = rng.random() < 0.2
+        cfg_items = rng.random() < 0.3
         if cfg_items:
             sub = {"kind": "schema", "key": "", "fields": []}
             for k in gen.pick_keys(rng, rng.choice([1, 2, 3])):
@@ -77,6 +77,10 @@ def generate(rng, ctx):
                 if rng.random() < 0.25:
                     fld["params"]["required"] = True
                 sub["fields"].append(fld)
+            if rng.random() < 0.6:
+                # a typed list with a default inside the item: changing it in place leaves the item's field "at its default"
+                sub["fields"].append({"kind": "field", "key": "ztags", "family": "list", "params": {"default": []},
+                                      "item": {"kind": "field", "family": "str", "params": {}}})
             item = sub if rng.random() < 0.5 else {"kind": "ctype", "key": "", "name": "CI", "schema": sub}
         else:
             item = _mkfield(rng, rng.choice(ITEM_FAMS))
@@ -97,7 +101,7 @@ def generate(rng, ctx):
                 if item["kind"] == "ctype" and rng.random() < 0.6:
                     # configuration types compare by content: a second member equal to an earlier one, and removal of a
                     # member by handing the object itself over (the builtin takes out the first EQUAL one)
-                    name = rng.choice(["dup_member", "remove_member", "remove_member"])
+                    name = rng.choice(["dup_member", "remove_member", "remove_member", "default_alias_probe"])
             op = {"op": name}
             if name in ("append", "insert", "setitem", "remove"):
                 op["x"] = _vals(rng, item, 1, bad)[0]
@@ -117,7 +121,7 @@ def generate(rng, ctx):
             if name == "sort":
                 op["reverse"] = rng.random() < 0.5
                 op["key"] = rng.choice([None, None, "len_str", "first", "const", "mod10"])
-            if name in ("dup_member", "remove_member"):
+            if name in ("dup_member", "remove_member", "default_alias_probe"):
                 op["i"] = rng.randrange(0, 6)
             ops.append(op)
         init = _vals(rng, item, rng.choice([0, 1, 3, 5]))
@@ -152,6 +156,20 @@ def generate(rng, ctx):
                     op["it"]["pairs"] = ps + [[ps[0][0], ps[1][1]], [ps[2][0], ps[0][1]]]
             ops.append(op)
         init = pairs(rng.choice([0, 1, 3]))
+    def tidy(o):
+        # (the inner list of an item is there for the member operations; what the item schema makes of odd values for it is
+        # not this property's subject: it is left out unless it is a plain list of texts)
+        if isinstance(o, dict):
+            if "ztags" in o and not (isinstance(o["ztags"], list) and all(isinstance(t, str) for t in o["ztags"])):
+                del o["ztags"]
+            for v in o.values():
+                tidy(v)
+        elif isinstance(o, list):
+            for v in o:
+                tidy(v)
+
+    tidy(init)
+    tidy(ops)
     return {"field": f, "init": init, "ops": ops}
 
 
@@ -425,6 +443,40 @@ def _list_op(cc, cfg, f, proxy, ref, op, res):
         for what, a, b in checks:
             if not eqstar(a, b):
                 return "viol", "%s gives %r, builtin gives %r" % (what, a, b)
+        return "ok", None
+    if name == "default_alias_probe":
+        # two members that are equal and still hold the default of their inner list; one of them has that list changed in
+        # place; the other one is then looked up, counted and removed by handing the object over
+        if not len(ref):
+            return None
+        i = op["i"] % len(ref)
+        import copy as _copy
+
+        member = proxy[i]
+        try:
+            if "ztags" not in ref[i] or ref[i]["ztags"] != [] or cc.is_value_defined(member, "ztags"):
+                return None
+        except Exception:
+            return None
+        sparse = {k: _copy.deepcopy(v) for k, v in plain(member).items() if k != "ztags"}
+        try:
+            proxy.append(sparse)
+        except Exception as exc:
+            return "viol", "append of a copy of member %d without its inner list raised %r" % (i, exc)
+        ref.append(_copy.deepcopy(ref[i]))
+        member.ztags.append("zz")
+        ref[i] = dict(ref[i], ztags=["zz"])
+        probe = proxy[len(proxy) - 1]
+        res.count("members_equal_up_to_an_inner_default_changed_in_place")
+        checks = [("index", proxy.index(probe), ref.index(ref[-1])), ("count", proxy.count(probe), ref.count(ref[-1])),
+                  ("contains", probe in proxy, True), ("eq", member == probe, ref[i] == ref[-1])]
+        for what, a, b in checks:
+            if a != b:
+                return "viol", "%s of the unchanged twin member gives %r, builtin gives %r" % (what, a, b)
+        trial = list(ref)
+        trial.remove(ref[-1])
+        proxy.remove(probe)
+        ref[:] = trial
         return "ok", None
     if name in ("dup_member", "remove_member"):
         if not len(ref):
